@@ -405,7 +405,13 @@ func instrument(p *pkgInfo, f *fileInfo) []byte {
 					lhs = strings.Join(ls, ", ") + " " + c.Tok.String() + " "
 				case *ast.SendStmt:
 					handled[c] = true
-					unsupp = append(unsupp, fmt.Sprintf("%s: send case in select is not modelled", where(cc)))
+					if containsArrow(c.Chan) || containsArrow(c.Value) {
+						unsupp = append(unsupp, fmt.Sprintf("%s: nested channel operation in select case", where(cc)))
+						continue
+					}
+					cases = append(cases, "verifrt.SendCase("+f.text(c.Chan)+", "+f.text(c.Value)+")")
+					repl(cc.Case, cc.Colon+1, fmt.Sprintf("case %d:", idx))
+					idx++
 					continue
 				}
 				if recv == nil || recv.Op != token.ARROW {
